@@ -50,6 +50,8 @@ Conn = _Ty('Conn')                # sqlite3 connection of the named store class 
 Table = _Ty('Table')              # abstract table state
 TupleObj = _Ty('TupleObj')        # tuple of arbitrary objects, symbolic length
 ListObj = _Ty('ListObj')
+ListStr = _Ty('ListStr')          # mutable list of str
+ListOf = _Ty('ListOf')            # ListOf(T, k): a list of exactly k elements of type T
 
 REGISTRY = {'contracts': {}, 'loops': {}, 'specs': {}, 'lemmas': {}, 'fields': {}, 'opaques': {}, 'inlines': set(),
             'externs': {}}
